@@ -379,7 +379,7 @@ def run(ctx):
         out += res
     if ctx.tier == "thorough":
         from vlib import witness
-        out.append(witness.rule("C16", ['OptionalNeedsOption', 'OptionalNullableNeedsOption', 'UnknownKeysRejected', 'IncompatibleCombinationsRejected', 'UnsupportedItemRejected', 'UnusualIdentifiersExpand', 'DefaultedGenericsExpand', 'AllSkippedExpands', 'EveryMentionedParameterIsBounded', 'UnusualGenericsExpand'], "C16.R6"))
+        out.append(witness.rule("C16", ['OptionalNeedsOption', 'OptionalNullableNeedsOption', 'UnknownKeysRejected', 'IncompatibleCombinationsRejected', 'UnsupportedItemRejected', 'UnusualIdentifiersExpand', 'DefaultedGenericsExpand', 'AllSkippedExpands', 'EveryMentionedParameterIsBounded', 'UnusualGenericsExpand', 'PreludeNamesNotCaptured'], "C16.R6"))
     out.append(T.type_param_walker_rule(ctx.syn, "C16"))
     out.append(T.empty_repetition_rule(ctx.syn, "C16"))
     out.append(T.export_test_params_rule(ctx.syn, "C16"))
